@@ -140,6 +140,7 @@ func newRefClock(d time.Duration) *refClock {
 
 type CaseResult struct {
 	Ctor                   string `json:"ctor"`
+	CbSwapped              bool   `json:"cb_swapped"`
 	KeyType                string `json:"key_type"`
 	IntervalNs             int64  `json:"interval_ns"`
 	NExpiring              int    `json:"n_expiring"`
@@ -171,7 +172,11 @@ type handle struct {
 func expKey(i int) int     { return i }
 func foreverKey(i int) int { return 1000000 + i }
 
-func construct(ctor string, interval time.Duration, led *ledger) *handle {
+// swap: the cache is constructed with a decoy callback (every call of it is
+// counted as a bad ledger entry) and the real one is installed afterwards with
+// SetEvictedCallback: removals must report to the callback in force at that time.
+func construct(ctor string, interval time.Duration, led *ledger, swap bool) *handle {
+	decoyStr := func(k string, v interface{}) { led.mu.Lock(); led.bad++; led.mu.Unlock() }
 	cbStr := func(k string, v interface{}) {
 		if n, ok := v.(int); ok {
 			led.add(k, n)
@@ -186,12 +191,19 @@ func construct(ctor string, interval time.Duration, led *ledger) *handle {
 	switch ctor {
 	case "New":
 		// expiring entries use the cache-wide default expiration
+		first := cache.EvictedCallback(cbStr)
+		if swap {
+			first = decoyStr
+		}
 		c := cache.New(
 			cache.WithDefaultExpiration(ttl),
 			cache.WithCleanupInterval(interval),
-			cache.WithEvictedCallback(cbStr),
+			cache.WithEvictedCallback(first),
 			cache.WithMinCapacity(64),
 		)
+		if swap {
+			c.SetEvictedCallback(cbStr)
+		}
 		h.setExpiring = func(i, v int) { c.SetDefault(skey(i), v) }
 		h.setForever = func(i, v int) { c.SetForever(skey(i), v) }
 		h.keyName = skey
@@ -199,7 +211,13 @@ func construct(ctor string, interval time.Duration, led *ledger) *handle {
 		h.deleteExpired = c.DeleteExpired
 		h.keep = c
 	case "NewDefault":
-		c := cache.NewDefault(cache.NoExpiration, interval, cbStr)
+		var c cache.Cache
+		if swap {
+			c = cache.NewDefault(cache.NoExpiration, interval) // no callback at construction
+			c.SetEvictedCallback(cbStr)
+		} else {
+			c = cache.NewDefault(cache.NoExpiration, interval, cbStr)
+		}
 		h.setExpiring = func(i, v int) { c.Set(skey(i), v, ttl) }
 		h.setForever = func(i, v int) { c.SetDefault(skey(i), v) } // default is NoExpiration
 		h.keyName = skey
@@ -207,12 +225,20 @@ func construct(ctor string, interval time.Duration, led *ledger) *handle {
 		h.deleteExpired = c.DeleteExpired
 		h.keep = c
 	case "NewOf":
+		realOf := func(k string, v int) { led.add(k, v) }
+		firstOf := cache.EvictedCallbackOf[string, int](realOf)
+		if swap {
+			firstOf = func(k string, v int) { led.mu.Lock(); led.bad++; led.mu.Unlock() }
+		}
 		c := cache.NewOf[string, int](
 			cache.WithDefaultExpirationOf[string, int](ttl),
 			cache.WithCleanupIntervalOf[string, int](interval),
-			cache.WithEvictedCallbackOf[string, int](func(k string, v int) { led.add(k, v) }),
+			cache.WithEvictedCallbackOf[string, int](firstOf),
 			cache.WithMinCapacityOf[string, int](64),
 		)
+		if swap {
+			c.SetEvictedCallback(realOf)
+		}
 		h.setExpiring = func(i, v int) { c.Set(skey(i), v, cache.DefaultExpiration) }
 		h.setForever = func(i, v int) { c.Set(skey(i), v, cache.NoExpiration) }
 		h.keyName = skey
@@ -220,7 +246,14 @@ func construct(ctor string, interval time.Duration, led *ledger) *handle {
 		h.deleteExpired = c.DeleteExpired
 		h.keep = c
 	case "NewOfDefault":
-		c := cache.NewOfDefault[int, int](ttl, interval, func(k int, v int) { led.add(strconv.Itoa(k), v) })
+		realII := func(k int, v int) { led.add(strconv.Itoa(k), v) }
+		var c cache.CacheOf[int, int]
+		if swap {
+			c = cache.NewOfDefault[int, int](ttl, interval, func(k int, v int) { led.mu.Lock(); led.bad++; led.mu.Unlock() })
+			c.SetEvictedCallback(realII)
+		} else {
+			c = cache.NewOfDefault[int, int](ttl, interval, realII)
+		}
 		h.setExpiring = func(i, v int) { c.SetDefault(i, v) }
 		h.setForever = func(i, v int) { c.SetForever(i, v) }
 		h.keyName = func(i int) string { return strconv.Itoa(i) }
@@ -569,7 +602,9 @@ func casesPart(seed int64, tier string) []*CaseResult {
 				}
 				led := &ledger{}
 				before, _ := libGoroutines()
-				h := construct(ctor, iv, led)
+				swap := (len(runs)+rep)%2 == 1
+				res.CbSwapped = swap
+				h := construct(ctor, iv, led, swap)
 				after, _ := libGoroutines()
 				res.JanitorStarted = after > before
 				if after-before > 1 || after < before {
